@@ -221,6 +221,12 @@ func guardsOf(i ssa.Instruction) []guardAtom {
 	if site := soleCaller(i.Parent()); site != nil {
 		out = append(out, guardsOf(site)...)
 	}
+	// the body of a range-over-func loop runs where the loop stands
+	if body := i.Parent(); isRangeFuncBody(body) {
+		if at := rangeFuncCall(body); at != nil {
+			out = append(out, guardsOf(at)...)
+		}
+	}
 	return out
 }
 
